@@ -205,12 +205,13 @@ def run_case(ctx, fx, rowspec, cmd, verbose, qual, target_mod="mod"):
     got = fx.command(cmd, target, verbose)
     fx.write_db(valid_only)
     ref = fx.command(cmd, target, verbose)
-    if ref["exc"] is not None or ref["rc"] != 0:
-        raise core.HarnessError(f"reference run on valid rows failed: {ref['exc']!r} rc={ref['rc']} {ref['err']}")
     if got["exc"] is not None:
         return ctx.fail(f"C10/command-crashes:{type(got['exc']).__name__}", spec, f"`{cmd} {target}` raised {got['exc']!r} with stale rows {[r for r in rowspec if r[0] == 's']}")
     if got["rc"] != 0:
         return ctx.fail("C10/exit-status-not-success", spec, f"`{cmd} {target}` returned {got['rc']}; stderr: {got['err'][:300]}")
+    if ref["exc"] is not None or ref["rc"] != 0:
+        # the reference is the same command on the decodable rows alone (possibly none): it must succeed too
+        return ctx.fail(f"C10/command-fails-on-decodable-rows-alone", spec, f"`{cmd} {target}` on the {n_valid} valid rows alone: {ref['exc']!r} rc={ref['rc']} {ref['err'][:300]}")
     if got["out"] != ref["out"] or got["file"] != ref["file"]:
         return ctx.fail("C10/output-differs-from-decodable-rows-alone", spec,
                         f"`{cmd} {target}`: with stale rows\n{got['out'][:600]}\nvalid rows alone\n{ref['out'][:600]}")
